@@ -160,6 +160,13 @@ Theorem C12_run_rejects_before_calls : forall p o kw,
 Proof. exact model_meets_spec_call. Qed.
 Print Assumptions C12_run_rejects_before_calls.
 
+(* the order inside Pipeline.run (model list; the list regenerated from the source: gen/Check_PrepareSteps.v):
+   every check precedes the first invocation of user code *)
+Theorem C12_run_entry_ordered :
+  no_effect_before_checks run_entry_steps = true /\ spec_ok CRunOrder (run CRunOrder) = true.
+Proof. split; [vm_compute; reflexivity|exact model_meets_spec_run_order]. Qed.
+Print Assumptions C12_run_entry_ordered.
+
 (* the two former witnesses *)
 Example C12_example_run_rejected_up_front :
   Pipe.run_checked Pipe.Sym.body Pipe.Sym.pick
